@@ -3,6 +3,7 @@
 (* Trace specification of UConnBuild (property C01).                       *)
 (* Events (harness/cmd/uconn, command build; chronological per scenario):  *)
 (*   Scn      the scenario: id, class, server, the calls to make           *)
+(*   New      the UConn as UClient returns it (Hello.Raw)                  *)
 (*   Seed     (only with a cached session) the earlier connection is over  *)
 (*   Call i   the i-th call returned: error, Hello.Raw and the hello fields *)
 (*            after it, what the edit found                                *)
@@ -28,19 +29,21 @@ EXTENDS UConnBuild, Json
 Trace == ndJsonDeserialize("uconn_trace.ndjson")
 
 VARIABLES l, rej, scn, stats,
+          berr,    \* error of the explicit build call that was the last call and failed ("": none)
           atsend   \* Hello.Raw as the client's outgoing-message hook saw it when the next ClientHello was written
 NoScn == [sc |-> -1, cls |-> "", ops |-> <<>>]
 
 StatKeys == {"random", "sid", "suites", "sni", "nosni", "ext", "noext", "front",
              "ApplyPreset", "Build", "BuildNoSess", "SetClientRandom", "SetSNI", "RemoveSNI", "EditSuites", "EditSessionId",
-             "ExtInsert", "ExtRemove", "ExtALPN", "ExtSNIField", "sni_literal", "unprotected", "scn", "ch1", "ch2", "hrr", "hrr_cookie", "done", "done_hrr", "failed", "rebuilt", "seeded", "psk"}
+             "ExtInsert", "ExtRemove", "ExtALPN", "ExtSNIField", "Break", "unbuildable", "refused", "build_failed", "build_err_unexplained", "sni_literal", "unprotected", "scn", "ch1", "ch2", "hrr", "hrr_cookie", "done", "done_hrr", "failed", "rebuilt", "seeded", "psk"}
 Bump(ks) == stats' = [k \in StatKeys |-> stats[k] + (IF k \in ks THEN 1 ELSE 0)]
 
-Init == /\ l = 1 /\ rej = {} /\ scn = NoScn /\ stats = [k \in StatKeys |-> 0] /\ atsend = NoSer
+Init == /\ l = 1 /\ rej = {} /\ scn = NoScn /\ stats = [k \in StatKeys |-> 0] /\ atsend = NoSer /\ berr = ""
         /\ Init0("")
 
 \* ---- what the specification has against the current state
-Viol == (IF ~WireIsRaw THEN {<<scn.sc, "WireIsRaw", IF wire[1].id # rebuilt.id THEN "first-hello-differs-from-rebuilt-raw"
+Viol == (IF ~NothingSentWhenRefused THEN {<<scn.sc, "RebuildMustFail", "hello-sent-although-refused">>} ELSE {}) \cup
+        (IF ~WireIsRaw THEN {<<scn.sc, "WireIsRaw", IF wire[1].id # rebuilt.id THEN "first-hello-differs-from-rebuilt-raw"
                                                      ELSE "hello-differs-from-raw-when-written">>} ELSE {})
    \cup (IF ~EditsVisible THEN {<<scn.sc, "EditsVisible", c.kind>> : c \in Broken(rebuilt.img, pending)} ELSE {})
    \cup (IF ~RawIsLastSent THEN {<<scn.sc, "RawIsLastSent",
@@ -55,7 +58,7 @@ OnScn(ev) ==
   /\ scn' = ev
   /\ cls' = ev.cls /\ status' = "NotBuilt" /\ applied' = FALSE /\ omitSNI' = FALSE /\ pending' = {}
   /\ raw' = NoSer /\ rebuilt' = NoSer /\ wire' = <<>> /\ sent' = <<>> /\ hrrSeen' = FALSE /\ phase' = "edit"
-  /\ rej' = rej \cup (IF scn.sc >= 0 /\ phase \notin {"done", "failed"} THEN {<<scn.sc, "order", "no-result">>} ELSE {})
+  /\ rej' = rej \cup (IF scn.sc >= 0 /\ phase \notin {"done", "failed", "refused"} THEN {<<scn.sc, "order", "no-result">>} ELSE {})
   /\ Bump({"scn"})
 
 \* ---- Call: the public calls and edits
@@ -71,10 +74,17 @@ OnCall(ev) ==
   LET o == scn.ops[ev.i] IN
   /\ UNCHANGED scn
   /\ IF ev.i \notin DOMAIN scn.ops \/ o.op # ev.op THEN Reject("binding", "call-not-in-scenario") /\ UNCHANGED stats
+     ELSE IF o.op \in {"Build", "BuildNoSess"} /\ phase = "edit" /\ ev.panic = "" /\ (ev.err # "" \/ WillFail) THEN
+          \* an unbuildable hello: the build must return an error and leave Hello.Raw alone
+          IF ev.err # "" /\ WillFail THEN /\ BuildFails
+                                          /\ rej' = rej \cup Viol' \cup (IF ev.sha # raw.id THEN {<<scn.sc, "RebuildMustFail", "raw-changed-by-failed-build">>} ELSE {})
+                                          /\ Bump({"build_failed"})
+          ELSE IF WillFail THEN Reject("RebuildMustFail", "explicit-build-succeeded") /\ UNCHANGED stats
+          ELSE Ignore /\ Bump({"build_err_unexplained"})       \* a build error the model does not predict (not C01's)
      ELSE IF ev.err # "" \/ ev.panic # "" THEN Ignore /\ UNCHANGED stats          \* the call refused: no effect
      ELSE IF ~Bound(o, ev) THEN Reject("binding", o.op) /\ UNCHANGED stats
      ELSE IF phase # "edit" THEN Reject("order", "call-after-handshake-start") /\ UNCHANGED stats
-     ELSE /\ Bump({o.op} \cup (IF ~Protected /\ o.op \in {"SetClientRandom", "EditSuites", "EditSessionId", "ExtInsert", "ExtRemove", "ExtALPN", "ExtSNIField"}
+     ELSE /\ Bump({o.op} \cup (IF ~Protected /\ o.op \in {"SetClientRandom", "EditSuites", "EditSessionId", "ExtInsert", "ExtRemove", "ExtALPN", "ExtSNIField", "Break"}
                                THEN {"unprotected"} ELSE {}))
           /\ CASE o.op = "ApplyPreset"     -> ApplyPreset /\ Judge
                [] o.op = "Build"           -> Build(TRUE, S(ev.sha, BadHello)) /\ Judge
@@ -89,6 +99,7 @@ OnCall(ev) ==
                [] o.op = "EditSessionId"   -> EditSessionId(o.sid) /\ Judge
                [] o.op = "ExtInsert"       -> ExtInsert(o.id, o.data) /\ Judge
                [] o.op = "ExtRemove"       -> ExtRemove(o.t) /\ Judge
+               [] o.op = "Break"           -> Break(IF o.what = "shortrandom" THEN <<"random">> ELSE <<"break", o.what>>) /\ Judge
                [] o.op = "ExtALPN"         -> ExtALPN(Vec16(ProtoList(o.protos)), ev.found >= 1) /\ Judge
                [] OTHER -> Reject("binding", "unknown-op")
 
@@ -96,6 +107,7 @@ OnCall(ev) ==
 OnRebuilt(ev) ==
   /\ UNCHANGED scn
   /\ IF phase # "edit" THEN Reject("order", "second-rebuild") /\ UNCHANGED stats
+     ELSE IF WillFail THEN Reject("RebuildMustFail", "handshake-went-on-after-failed-rebuild") /\ UNCHANGED stats
      ELSE IF ev.n # Len(ev.raw) THEN Reject("binding", "rebuilt-length-and-bytes-differ") /\ UNCHANGED stats
      ELSE /\ \E img \in {ParseHello(ev.raw)} : StartHandshake(S(ev.sha, img))
           /\ Judge
@@ -127,9 +139,17 @@ OnSH(ev) ==
 \* ---- Done: Finish / Fail
 OnDone(ev) ==
   /\ UNCHANGED scn
-  /\ IF ev.cok /\ phase = "sh" THEN Finish(S(ev.sha, BadHello)) /\ Judge /\ Bump({"done"} \cup (IF hrrSeen THEN {"done_hrr"} ELSE {}))
+  /\ IF phase = "edit" /\ WillFail THEN
+        \* the hello cannot be rebuilt: Handshake returns the build error, Hello.Raw stays, nothing was written
+        IF ev.cok THEN /\ Fail(S(ev.sha, BadHello)) /\ UNCHANGED stats
+                       /\ rej' = rej \cup {<<scn.sc, "RebuildMustFail", "success-reported">>}
+        ELSE /\ StartFails(S(ev.sha, BadHello))
+             /\ rej' = rej \cup Viol' \cup (IF ev.sha # raw.id THEN {<<scn.sc, "RebuildMustFail", "raw-changed-by-failed-rebuild">>} ELSE {})
+                                  \cup (IF berr # "" /\ ev.cerr # berr THEN {<<scn.sc, "RebuildMustFail", "handshake-error-is-not-the-build-error">>} ELSE {})
+             /\ Bump({"refused"} \cup (IF \E c \in pending : c.kind = "unbuildable" THEN {"unbuildable"} ELSE {}))
+     ELSE IF ev.cok /\ phase = "sh" THEN Finish(S(ev.sha, BadHello)) /\ Judge /\ Bump({"done"} \cup (IF hrrSeen THEN {"done_hrr"} ELSE {}))
      ELSE IF ev.cok THEN Reject("order", "completed-without-server-hello") /\ UNCHANGED stats
-     ELSE IF phase \in {"done", "failed"} THEN Reject("order", "second-result") /\ UNCHANGED stats
+     ELSE IF phase \in {"done", "failed", "refused"} THEN Reject("order", "second-result") /\ UNCHANGED stats
      ELSE Fail(S(ev.sha, BadHello)) /\ Judge /\ Bump({"failed"})
 
 Step == /\ l <= Len(Trace)
@@ -138,7 +158,12 @@ Step == /\ l <= Len(Trace)
            atsend' = IF ev.ev = "AtSend" THEN S(ev.sha, BadHello)
                      ELSE IF ev.ev = "Scn" \/ (ev.ev = "Rec" /\ IsCH(ev)) THEN NoSer ELSE atsend
         /\ LET ev == Trace[l] IN
+           berr' = IF ev.ev = "Call" THEN (IF ev.op \in {"Build", "BuildNoSess"} THEN ev.err ELSE "")
+                   ELSE IF ev.ev = "Scn" THEN "" ELSE berr
+        /\ LET ev == Trace[l] IN
            CASE ev.ev = "Scn" -> OnScn(ev)
+             [] ev.ev = "New" -> /\ raw' = S(ev.sha, BadHello)       \* Hello.Raw of the UConn as UClient returns it
+                                 /\ UNCHANGED <<cls, status, applied, omitSNI, pending, rebuilt, wire, sent, hrrSeen, phase, rej, scn, stats>>
              [] ev.ev = "Call" -> OnCall(ev)
              [] ev.ev = "Rebuilt" -> OnRebuilt(ev)
              [] ev.ev = "Rec" -> OnRec(ev)
